@@ -365,7 +365,7 @@ example (s' : State) (hs : step (runG init (goodRound ++ List.replicate 14 (0, .
 then re-checks the stop request — `/verif/.build/C15/proposed-fix-K15a.diff`; K15b: `spawn-native-thread` holds the
 heap lock from before it clones its state until the child is registered — `proposed-fix-K15b.diff`; K17a/K17c: the
 controller is one word of request bits, every operation one atomic read-modify-write, the exit loops wait on STOP
-only — design in `ModelR.lean`, patch not written; `R.interrupt_not_lost`, `R.poll_delivers`).  For that model the invariant (`LemmasR.lean`) is preserved by
+only — `proposed-fix-K17ac.diff`; `R.interrupt_not_lost`, `R.poll_delivers`).  For that model the invariant (`LemmasR.lean`) is preserved by
 EVERY step (`R.step_inv`, no guard), so the two C15 statements hold for every number of threads and every schedule,
 including host interrupts / resumes on any controller and spawns at any time. -/
 
@@ -386,15 +386,17 @@ example : ((R.run R.init R.exitRaceR).th 1).pc = .parking .prim ∧ ((R.run R.in
 
 /-! ## Clauses of the property not carried by a theorem
 
-* THE CODE AS IT IS: "for every interleaving of the stop request with a thread's entry to and exit from a
-  safepoint" holds only for the interleavings that respect `G`.  Excluded — and the full statement is FALSE there —
-  are: a stop request reaching a thread between its last exit check and its retraction (`not_scan_exclusive`, K15a);
-  a thread spawned, or a host `interrupt()` issued or in flight, during a round (`not_env_coherent`, K15b).
-  Overlapping rounds are excluded by `G` as well; for the current code (`State.fix`) that clause is implied by the
-  heap lock (`C16.scan_exclusive_fixed` / `C16.env_coherent_fixed`, guard `GFix`).
-  THE REPAIRED HANDSHAKE (`scan_exclusive_repaired`, `env_coherent_repaired`): no interleaving is excluded.  What
-  ties `ModelR` to code is (a) the patches K15a/K15b, run under the forced schedules of the witnesses in a scratch
-  tree (evidence in the builder's report; the coordinator applies them), (b) for the controller redesign nothing yet.
+* WHICH MODEL IS THE CODE.  Since /repo 51ca93da (K15a) and 467a8def (K15b) the exits and the spawn of the code are those
+  of `ModelR` (`GenExits.lean`: `exit_rechecks_after_retract`, `stop_requests_fenced`, `spawn_registers_under_heap_lock`,
+  regenerated from the source on every run, no exceptions left; the check runs the witnesses on `Driver repaired`).
+  The CONTROLLER of the code is still the two cells `paused` / `state` (`controllerOneWord = false`): `ModelR` is the model
+  of the code for schedules WITHOUT `interrupt()` / `suspend()`; there `scan_exclusive_repaired` / `env_coherent_repaired`
+  have no excluded interleaving.  With a host interrupt the code still violates the scan clause: the exit loops of
+  `enter_safepoint` `break` on `Interrupted`, so a thread that is being scanned inside a primitive leaves when
+  `interrupt()` arrives (finding K15c, forced deterministically: findings/C15-K15c.sched; in `Model.lean` it is the guard
+  clause "no interrupt during a round"), and K17a / K17c.  The repair is the one-word controller of `ModelR`
+  (/verif/.build/C15/proposed-fix-K17ac.diff); with it `ModelR` is the model of the code for ALL schedules.
+  The theorems about `Model.lean` (`*_partial`, `not_*`) are about the code before those commits.
 * Relaxed atomics.  Both models are sequentially consistent.  The ONE place where that matters for the repaired
   handshake is the Dekker pair  [stopper: `paused.store(true)` … `ctx.load()`]  vs  [thread: `ctx.store(None)` …
   `paused.load()`]: with a store buffer on either side (x86 allows store→load reordering; the code's
